@@ -18,7 +18,10 @@ namespace occa {
     variable_t::variable_t(const vartype_t &vartype_,
                            identifierToken *source_) :
         vartype(vartype_),
-        source((identifierToken*) token_t::clone(source_)) {}
+        // An unnamed variable [void f(float)] still needs an origin for diagnostics
+        source(source_
+               ? (identifierToken*) token_t::clone(source_)
+               : new identifierToken(vartype_.origin(), "")) {}
 
     variable_t::variable_t(const variable_t &other) :
         vartype(other.vartype),
